@@ -52,7 +52,7 @@ pub fn gen(r: &mut Rng) -> Value {
                 // malformed part directly after a closing quote; pre-processor lines with characters outside ASCII
                 "x \"a\"\"", "x \"text\"\\", "x \"a\" \"b\"\\q", "!print \"日本語のテキストです", "!définir ключ значение данные", "!print é \\q", "!нет"];
             let n_before = r.below(3);
-            let lead = ["", "", " ", "\t", "   ", " \t "];
+            let lead = ["", "", " ", "\t", "   ", " \t ", "\u{a0}", "\u{3000} ", "\u{b}"];
             let eol = ["\n", "\n", "\r\n"];
             json!({"kind": "malformed", "bad": r.pick(&bad), "before": n_before, "lead": r.pick(&lead), "trail": r.pick(&lead), "eol": r.pick(&eol)})
         }
